@@ -18,7 +18,7 @@ Line protocol (tokens separated by one blank):
 
 term (prefix form): `L n` `V x` `O ty` `P k t…` `C f k t…` (f = number, or `@name` of a `decl`ared function) `I c t e` `S subj k shape… k filter… k order… k offlim…`
 `W x b body` `F x iter body` `INS ty k shape… k onconflict… k else…` `UPD subj k filter… k shape…`
-`DEL subj k filter… k order… k offlim…`.
+`DEL subj k filter… k order… k offlim…` `FR k elem…` (free-object shape).
 
 Function environment (the schema the harness loads): f0 rd() pure, f1 mklog() declared Modifying
 with an INSERT body, f2 mkinf() INSERT body / volatility inferred, f3 noop(m) declared Modifying
@@ -92,6 +92,9 @@ partial def parseQ (nm : List (String × Nat)) : List String → Option (Q × Li
     let (o, r) ← parseL nm r
     let (l, r) ← parseL nm r
     pure (.delete s f o l, r)
+  | "FR" :: r => do
+    let (sh, r) ← parseL nm r
+    pure (.free sh, r)
   | _ => none
 partial def parseL (nm : List (String × Nat)) : List String → Option (QList × List String)
   | k :: r => do
